@@ -18,7 +18,7 @@ Definition b2n (b : bool) : nat := if b then 1 else 0.
 (* has not yet executed the setattr of attribute a *)
 Definition before_restore (a : attr) (p : pc) : bool :=
   match p with
-  | E444 _ | E445 _ | E446 _ | E447 _ | E448 _ | E449 _ | E451 _ | A460 | A459x => true
+  | E444 _ | E445 _ | E445b _ | E446 _ | E446k _ | E446g _ | E447 _ | E448 _ | E449 _ | E451 _ | A473 | A460 | A459x => true
   | X454 (Some a') => attr_le a' a
   | X455 a' => attr_le a' a
   | _ => false
@@ -51,7 +51,7 @@ Definition thread_ok (th : thread) : Prop :=
      | _ => True
      end
   /\ match th_pc th with
-     | E444 (Some a) | E445 a | E446 a | E447 a | E448 a | E449 a | E451 a =>
+     | E444 (Some a) | E445 a | E445b a | E446 a | E446k a | E446g a | E447 a | E448 a | E449 a | E451 a =>
          forall b, attr_le a b = true -> sget (th_saved th) b = None
      | PStart | PSeg _ (E444 _) => forall b, sget (th_saved th) b = None
      | PSeg _ A466 | PSeg _ F119 | PSeg _ PDone => True
@@ -189,7 +189,16 @@ Proof.
       try (pose proof (Hfresh AW); pose proof (Hfresh AS); clear Hfresh); crush.
   - (* E445 *)
     inversion Hex; subst; clear Hex. pose proof (Hfresh AW); pose proof (Hfresh AS); clear Hfresh. crush.
+  - (* E445b *)
+    inversion Hex; subst; clear Hex. pose proof (Hfresh AW); pose proof (Hfresh AS); clear Hfresh. crush.
   - (* E446 *)
+    pose proof (Hfresh AW); pose proof (Hfresh AS); clear Hfresh.
+    destruct a; simpl in *.
+    + destruct w0; inversion Hex; subst; clear Hex; crush.
+    + destruct s0; inversion Hex; subst; clear Hex; crush.
+  - (* E446k *)
+    inversion Hex; subst; clear Hex. pose proof (Hfresh AW); pose proof (Hfresh AS); clear Hfresh. crush.
+  - (* E446g *)
     pose proof (Hfresh AW); pose proof (Hfresh AS); clear Hfresh.
     destruct a; simpl in *.
     + destruct w0; inversion Hex; subst; clear Hex; crush.
@@ -205,6 +214,8 @@ Proof.
     inversion Hex; subst; clear Hex. pose proof (Hfresh AW); pose proof (Hfresh AS); clear Hfresh. crush.
   - (* E451 *)
     inversion Hex; subst; clear Hex. pose proof (Hfresh AW); pose proof (Hfresh AS); clear Hfresh. crush.
+  - (* A473 *)
+    inversion Hex; subst; clear Hex. crush.
   - (* A460 *)
     inversion Hex; subst; clear Hex. crush.
   - (* A459x *)
@@ -381,7 +392,7 @@ End WithInit.
 (* the hypotheses of the theorems are satisfiable *)
 Example no_loss_example :
   all_done (run (mkCfg true false false) (init_state (mkStore (Some 7%N) None) [KSig; KPlain])
-                (repeat 0 45 ++ [1])) = true.
+                (repeat 0 80 ++ [1])) = true.
 Proof. vm_compute. reflexivity. Qed.
 
 Example outside_windows_example :
